@@ -423,8 +423,10 @@ def m_str(interp, args, kw):
     (v,) = args
     if isinstance(v, SV) and v.k == "name":
         return v
+    from .values import SymStr
+    if isinstance(v, SymStr):
+        return v
     if isinstance(v, SV) and v.k in ("int", "real"):
-        from .values import SymStr
         return SymStr((v,), tokens=[v])        # token model: str(v) is one token whose float() is v
     if is_symbolic(v):
         return "<sym>"
